@@ -444,13 +444,29 @@ func (m *machine) runRound(hist *[]string) {
 		}
 	}
 	var tasks []*simrt.Task
-	for i := 0; i < nup; i++ {
+	// Some uploaders start late: after the others have taken a tape-chosen
+	// number of steps (a late starter may already see only part of the week's
+	// files, or reports in the middle of being created and consumed).
+	late := 0
+	if nup >= 2 && t.Bool(1, 6) {
+		late = 1 + t.Draw(nup-1)
+	}
+	spawnUploader := func(i int) {
 		p := s.NewProc(fmt.Sprintf("uploader-r%d-%d", m.round, i), nil)
 		tk := s.Spawn(p, p.Name, func() {
 			upload.Run(upload.RunConfig{TelemetryDir: m.tele, UploadURL: uploadURL, StartTime: explicitStart})
 		})
 		m.uploaderOf[tk] = m.round
 		tasks = append(tasks, tk)
+	}
+	for i := 0; i < nup-late; i++ {
+		spawnUploader(i)
+	}
+	for i := nup - late; i < nup && m.viol == nil; i++ {
+		for k := 10 + t.Draw(150); k > 0 && m.viol == nil && s.Step(); k-- {
+		}
+		spawnUploader(i)
+		s.Probe("late-uploader")
 	}
 	*hist = append(*hist, fmt.Sprintf("round %d: %s mode=%s asof=%s files=%d uploaders=%d cfg=%s", m.round, m.roundStart.Format("2006-01-02T15:04"), m.roundMode,
 		m.roundAsof.Format("2006-01-02"), len(m.roundFiles), nup, m.cfgs[len(m.cfgs)-1].Version))
